@@ -8,6 +8,7 @@ import (
 	"encoding/json"
 	"fmt"
 	"io"
+	"math"
 	"net/http"
 	"strings"
 	"time"
@@ -161,7 +162,8 @@ func childDecSeed(b core.Batch, p params, o *core.Obs) {
 		for j := range seq {
 			seq[j] = ops[r.Intn(len(ops))]
 			if r.Chance(1, 6) && (seq[j].Kind == "Copy" || seq[j].Kind == "Seek") {
-				seq[j].N = r.PickI([]int{-40, -5, 9, 16, 39, 40, 41, 1 << 20, -(1 << 20), 1<<62 + 5, -(1 << 62)})
+				seq[j].N = r.PickI([]int{-40, -5, 9, 16, 39, 40, 41, 1 << 20, -(1 << 20), 1<<62 + 5, -(1 << 62),
+					math.MaxInt, math.MaxInt - 1, math.MaxInt - 7, math.MaxInt - 40, math.MinInt, math.MinInt + 1, math.MaxInt32, math.MaxInt32 + 1, math.MinInt32})
 			}
 		}
 		ob.Sequences++
